@@ -284,6 +284,27 @@ def search_C13(pid, budget):
                     fail(pid, "AudioEventsJoinerWorker", "joined file has %d bytes, events separated by round(%r*1000)=%d zero samples need %d" % (
                         len(got), sil, round(sil * 1000), len(exp)), pattern=pat, silence=sil)
                 jw._exported = True
+        # two stream savers alive at the same time do not share their caches
+        n += 1
+        ra = AudioReader(bytes([1]) * 120, block_dur=0.01, sr=1000, sw=2, ch=1)
+        rb = AudioReader(bytes([2]) * 120, block_dur=0.01, sr=1000, sw=2, ch=1)
+        pa, pb = os.path.join(tmp, "two_a.wav"), os.path.join(tmp, "two_b.wav")
+        sa = StreamSaverWorker(ra, pa, cache_size_sec=0.5)
+        sb = StreamSaverWorker(rb, pb, cache_size_sec=0.5)
+        for i in range(3):
+            sa._process_message(bytes([1]) * 20)
+        for i in range(2):
+            sb._process_message(bytes([2]) * 20)
+        sb._inbox = ScriptQ(["S"], STOPM)
+        sb._post_process()
+        sa._inbox = ScriptQ(["S"], STOPM)
+        sa._post_process()
+        ga, _ = wav_bytes(pa)
+        gb, _ = wav_bytes(pb)
+        sa._exported = sb._exported = True
+        if ga != bytes([1]) * 60 or gb != bytes([2]) * 40:
+            fail(pid, "StreamSaverWorker", "two savers alive together: file A holds %s bytes (expected 60 of its own), file B %s (expected 40)" % (
+                len(ga) if not isinstance(ga, str) else ga, len(gb) if not isinstance(gb, str) else gb))
         # two-channel joiner: the gap is round(silence*rate) FRAMES of zeros
         import struct as _st
         n += 1
